@@ -55,6 +55,7 @@ def cases(tier, seed):
 
 def monitor(spec, res, acc):
     tr = res.trace
+    base.check_initial_pond(spec, tr, acc)
     p = tr.init
     cov = acc.cov
     dry, sat = np.asarray(p["th_dry"], float), np.asarray(p["th_s"], float)
